@@ -102,6 +102,32 @@ def r01_4_close(ctx):
     ctx.check(okp and okv, R, 'draw_target::DrawTarget::close|cursor returns to start', cb.loc(), 'current_point := first_point on every path', 'DrawTarget::close does not set current_point from first_point on every path: drawing after close does not continue from the subpath start')
 
 
+def is_current_or_first(ctx, b, an, t):
+    """t is the current point of the fill path: self.current_point's payload, or — written as a value — a phi of that
+    payload (under the Some variant) and the op's first point parameter (under None, where it becomes the current point)"""
+    t = strip_all(t)
+    r0, n0 = field_path(t)
+    if r0 == ('param', 1) and n0 == ['current_point', '0']:
+        return True
+    if t[0] == 'phi' and len(t[2]) == 2:
+        some_ok = none_ok = False
+        for i in t[2]:
+            d = an.defs[i]
+            if d.kind != 'assign':
+                return False
+            v = strip_all(an.def_term(d))
+            vg = variant_guards(ctx, b, d.bb)
+            def on(variant):
+                return any(vv == variant and is_self_field(strip_all(scr), 'current_point') for scr, adt, vv, sb in vg)
+            rr, nn = field_path(v)
+            if rr == ('param', 1) and nn == ['current_point', '0'] and on('Some'):
+                some_ok = True
+            if v == ('param', 2) and on('None'):
+                none_ok = True
+        return some_ok and none_ok
+    return False
+
+
 def r08_34(ctx):
     """cursor law on the fill side: line_to/quad_to/cubic_to"""
     R = 'R08.3'
@@ -143,8 +169,7 @@ def r08_34(ctx):
         ok = arr[0] == 'agg' and arr[1] == 'array' and len(arr[4]) == 3
         if ok:
             e0 = strip_all(arr[4][0][1])
-            r0, n0 = field_path(e0)
-            ok = r0 == ('param', 1) and n0 == ['current_point', '0'] and strip_all(arr[4][1][1]) == ('param', 2) and strip_all(arr[4][2][1]) == ('param', 3)
+            ok = is_current_or_first(ctx, b, ctx.an(b), e0) and strip_all(arr[4][1][1]) == ('param', 2) and strip_all(arr[4][2][1]) == ('param', 3)
     ctx.check(ok, R, 'draw_target::DrawTarget::quad_to|curve', b.loc(), 'add_quad([current, cpt, pt])', 'quad_to does not pass [current point, control, end] to add_quad')
     # cubic_to: CubicBezierSegment{from: current, ctrl1, ctrl2, to}
     b = ctx.body(DT + 'cubic_to', R)
@@ -156,8 +181,7 @@ def r08_34(ctx):
     ok = len(segs) == 1
     if ok:
         f = dict(segs[0][4])
-        r0, n0 = field_path(strip_all(f['from']))
-        ok = r0 == ('param', 1) and n0 == ['current_point', '0'] and f['ctrl1'] == ('param', 2) and f['ctrl2'] == ('param', 3) and f['to'] == ('param', 4)
+        ok = is_current_or_first(ctx, b, an, f['from']) and f['ctrl1'] == ('param', 2) and f['ctrl2'] == ('param', 3) and f['to'] == ('param', 4)
     ctx.check(ok, R, 'draw_target::DrawTarget::cubic_to|segment', b.loc(), 'CubicBezierSegment{from: current, ctrl1, ctrl2, to}', 'cubic_to does not build the segment (current point, cpt1, cpt2, pt) in that order')
     # the points handed to cubic_to are already in device space: the conversion tolerance is a fixed fraction of a device
     # pixel and must not depend on the transform (or on anything else)
@@ -216,7 +240,9 @@ def r08_2(ctx):
     ok = [x[1] for x in chop_sites] == [(0, 2, 1), (2, 4, 3)]
     ctx.check(ok, R, key + '|chopped halves', b.loc(), 'edges (dst[0], dst[2], ctrl dst[1]) and (dst[2], dst[4], ctrl dst[3])',
               'after chopping, add_quad adds edges %s (start, end, control indices into dst); expected (0,2,1) then (2,4,3): the two halves must chain and keep their own control point' % [x[1] for x in chop_sites])
-    okp = len(plain) == 1 and plain[0][1][1] == 0 and plain[0][2][1] == 2 and plain[0][3][1] == 1 and plain[0][1][0] == plain[0][2][0] == plain[0][3][0]
+    # (the unchopped edge may be added at more than one place — e.g. once for a monotonic curve and once after forcing
+    # monotonicity — but always as (curve[0], curve[2]) with control curve[1])
+    okp = len(plain) >= 1 and all(p[1][1] == 0 and p[2][1] == 2 and p[3][1] == 1 and p[1][0] == p[2][0] == p[3][0] for p in plain)
     ctx.check(okp, R, key + '|unchopped', b.loc(), 'monotonic curve: edge (curve[0], curve[2], ctrl curve[1])', 'the unchopped route does not add the edge (curve[0], curve[2]) with control curve[1]')
     # the chop path is under is_not_monotonic and valid_unit_divide; chop_quad_at(&curve, &mut dst, t)
     for bi, idxs in chop_sites:
